@@ -313,7 +313,8 @@ func buildHSChild() {
 		return
 	}
 	h := sha256.Sum256([]byte(inst + hsSchedSrc))
-	tmp := filepath.Join(os.TempDir(), "verif-queue-hs-"+hex.EncodeToString(h[:8]))
+	// cached under <verif>/work, keyed by the content of the instrumented source + scheduler
+	tmp := filepath.Join(filepath.Dir(hdir), "work", "queue-hs-"+hex.EncodeToString(h[:8]))
 	bin := filepath.Join(tmp, "h_queue_hs")
 	if _, err := os.Stat(bin); err == nil {
 		hsBuild.bin = bin
